@@ -250,7 +250,7 @@ theorem facts_guard :
     Gen.Facts.c05TcNotStored = some true ∧ Gen.Facts.c05FreshTest = some true ∧
     Gen.Facts.c05CacheGetHidesExpired = some true ∧ Gen.Facts.c05SubtractCmp = Base.Cmp.gt ∧
     Gen.Facts.c05TtlHelpersSkipOpt = some true ∧ Gen.Facts.c05ForgetDeferred = some true ∧
-    Gen.Facts.c05EmptyAnswerPinsCacheTtl = some true := by decide
+    Gen.Facts.c05EmptyAnswerPinsCacheTtl = some true ∧ Gen.Facts.c05TtlHelpersVisitEveryRecordOnce = some true := by decide
 
 /-! ### Non-vacuity -/
 def a300 : RR := ⟨false, 300⟩
